@@ -630,6 +630,10 @@ class Representation(RepresentationBaseType):
         if seg_duration is None:
             if not self.elt.check_not_none(timeline, msg='SegmentTimeline missing'):
                 return
+            if not self.elt.check_greater_than(
+                    len(timeline.segments), 0,
+                    msg='SegmentTimeline does not describe any segment'):
+                return
             seg_duration = timeline.duration / float(len(timeline.segments))
         if timeline is not None:
             num_segments = len(self.segmentTemplate.segmentTimeline.segments)
